@@ -15,10 +15,12 @@ from vlib.case import REPO, Out, Sub, rng_from
 
 PROPERTY = "C18"
 TECHNIQUE = ("exhaustive enumeration of the documented tag/option table x property-based values per tag grammar (Hypothesis): "
-             "differential configuration-file route vs option route on the parsed Settings; generated end-to-end workflows run through "
+             "differential configuration-file route vs option route on the parsed Settings, also for EVERY pair of documented settings split either way "
+             "between file and command line (exhaustive) and random 2-4 setting mixtures; generated end-to-end workflows run through "
              "the real command entry points in subprocesses and compared with the library's results at the printed precision")
 RULE = ("'tags': every (option, tag) pair of doc/command-options.md, both commands, with values drawn from the tag's grammar (bool, "
-        "int, float, 3-vector, 3x3 matrix incl. fractions, choice strings, q lists, band paths). 'workflows': generated 2-species "
+        "int, float, 3-vector, 3x3 matrix incl. fractions, choice strings, q lists, band paths). 'tags_pairs': all pairs x both splits x both commands; "
+        "'tags_mixed': 2-4 settings, at most one per group of mutually exclusive run modes. 'workflows': generated 2-species "
         "crystals, dim, primitive axes, NAC on/off, and a run mode drawn from mesh+thermal properties | band | q-points | dos | pdos "
         "| thermal displacements | write-fc/read-fc, each expressed (a) by options, (b) by a configuration file, and compared with "
         "library calls; -d and -f steps; final phonopy.yaml reloaded. Non-trivial: >= 2 settings combined, crystal with >= 2 atoms.")
